@@ -41,6 +41,9 @@ def place_demo(src, txt):
     m = re.search(r"cp\s+\S*demo\.rs\s+(?:<repo-root>/)?(\S+\.rs)", txt) or \
         re.search(r"(shuttle(?:-[a-z]+)?/(?:tests|examples)/[A-Za-z0-9_./-]+\.rs|wrappers/[A-Za-z0-9_./-]+\.rs)", txt)
     dst = m.group(1) if m else "shuttle/tests/seed_demo.rs"
+    if "/wt/" in dst:
+        dst = dst.split("/wt/", 1)[1]            # a path inside the seeding agent's own worktree
+    dst = dst.lstrip("/")
     full = os.path.join(WT, dst)
     os.makedirs(os.path.dirname(full), exist_ok=True)
     shutil.copy(os.path.join(src, "demo.rs"), full)
